@@ -4,11 +4,129 @@ from lib import common as C
 
 
 def atomic(local, sc, cfg, hev, wire):
-    return
+    """C08 acceptor: the control events of every rank replayed through YgmVerif.Atomic.step"""
+    lines, origin = ["reset"], [None]
+    for ev in hev:
+        k, r = ev.kind, ev.r
+        lab = None
+        if k == "k:prq+":
+            lab = f"pollBegin {r} {ev.f[0]}"
+        elif k == "k:prq-":
+            lab = f"pollEnd {r}"
+        elif k == "k:hnr+":
+            lab = f"hnrBegin {r} {ev.f[2]}"
+        elif k == "k:hnr-":
+            lab = f"hnrEnd {r}"
+        elif k == "k:ex+":
+            lab = f"handlerBegin {r} {ev.f[1]} {ev.f[2]}"
+        elif k == "k:ex-":
+            lab = f"handlerEnd {r}"
+        elif k == "k:im+":
+            lab = f"maskOn {r}"
+        elif k == "k:im-":
+            lab = f"maskOff {r}"
+        if lab:
+            lines.append(lab)
+            origin.append(ev)
+    outs = C.model("atomic", lines)
+    local.count("atomic_labels", len(lines))
+    for line, o, ev in zip(lines, outs, origin):
+        if not o.startswith("ok"):
+            local.corr_failures.append({"relation": "control events accepted by YgmVerif.Atomic.step (C08 acceptor)",
+                                        "what": f"label '{line}' -> {o} at {ev!r}",
+                                        "case": {"scenario": sc.to_json(), "config": cfg.to_json()}})
+            return
 
 
 def flush(local, sc, cfg, hev, wire):
-    return
+    """C03 acceptor: every top-level invocation of flush_all_local_and_process_incoming, projected to polls / callbacks /
+    flushes with the real return values and the real (callbacks, unsent bytes, posted sends) after each, must be an
+    accepted history of YgmVerif.Flush.step that ends in `Done`."""
+    n = cfg.n
+    cbs, ub, sq = [0] * n, [0] * n, [0] * n
+    lines, origin = [], []
+    flwin = [0] * n        # depth of fl windows
+    level = [0] * n        # nesting of prq / cb windows inside the top-level fl window
+    pollinfo = [None] * n
+    for ev in hev:
+        k, r, f = ev.kind, ev.r, ev.f
+        # ---- track the three quantities from the hooks that report them
+        if k in ("k:pk", "k:qm", "k:fsb"):
+            ub[r] = int(f[2])
+        elif k in ("k:as+", "k:as-", "k:bc+", "k:bc-", "k:lp+", "k:lp-"):
+            ub[r] = int(f[1])
+        elif k == "k:hnr-":
+            ub[r] = int(f[0])
+        elif k == "k:fw":
+            ub[r] += int(f[2])
+        if k == "k:fsb":
+            sq[r] += 1
+        elif k == "k:sc":
+            sq[r] -= 1
+        elif k in ("k:prq+", "k:prq-"):
+            sq[r] = int(f[1])
+        if k in ("k:rcb", "k:cb+"):
+            cbs[r] = int(f[0])
+        # ---- project
+        if k == "k:fl+":
+            flwin[r] += 1
+            if flwin[r] == 1:
+                level[r] = 0
+                lines.append(f"begin {f[2]} {f[0]} {f[1]}")
+                origin.append(ev)
+                cbs[r], ub[r], sq[r] = int(f[2]), int(f[0]), int(f[1])
+            continue
+        if k == "k:fl-":
+            if flwin[r] == 1:
+                lines.append("end")
+                origin.append(ev)
+            flwin[r] -= 1
+            continue
+        if flwin[r] != 1:
+            continue
+        if k == "k:prq+":
+            if level[r] == 0:
+                pollinfo[r] = {"recvd": 0}
+            level[r] += 1
+        elif k == "k:prq-":
+            level[r] -= 1
+            if level[r] == 0 and pollinfo[r] is not None:
+                lines.append(f"poll {pollinfo[r]['recvd']} {f[0]} {cbs[r]} {ub[r]} {sq[r]}")
+                origin.append(ev)
+                pollinfo[r] = None
+        elif k == "k:hnr+":
+            if pollinfo[r] is not None and level[r] == 1:
+                pollinfo[r]["recvd"] = 1
+        elif k == "k:cb+":
+            level[r] += 1
+        elif k == "k:cb-":
+            level[r] -= 1
+            if level[r] == 0:
+                lines.append(f"cb {cbs[r]} {ub[r]} {sq[r]}")
+                origin.append(ev)
+        elif k == "k:fsb" and level[r] == 0:
+            lines.append(f"flush {f[1]}")
+            origin.append(ev)
+    if not lines:
+        return
+    # the model is per rank and per invocation; invocations of different ranks interleave in the log, so replay rank by rank
+    byrank = {}
+    for line, ev in zip(lines, origin):
+        byrank.setdefault(ev.r, []).append((line, ev))
+    allv, allo = [], []
+    for r in sorted(byrank):
+        for line, ev in byrank[r]:
+            allv.append(line)
+            allo.append(ev)
+    outs = C.model("flush", allv)
+    local.count("flush_labels", len(allv))
+    local.count("flush_invocations", sum(1 for l in allv if l.startswith("begin")))
+    for line, o, ev in zip(allv, outs, allo):
+        if not o.startswith("ok"):
+            local.corr_failures.append({"relation": "flush loop history accepted by YgmVerif.Flush.step (C03 acceptor)",
+                                        "what": f"label '{line}' -> {o} at {ev!r}",
+                                        "case": {"scenario": sc.to_json(), "config": cfg.to_json()}})
+            return
 
 
 def _parse_payload(hexstr, routed):
@@ -293,4 +411,49 @@ def barrier(local, sc, cfg, hev, wire):
 
 
 def bytes_(local, sc, cfg, hev, wire):
-    return
+    """C07 acceptor: buffering and flushing of every rank replayed through YgmVerif.Bytes: every physical send must
+    carry exactly the model's front buffer, be justified (over capacity, or at a flush point), flush_to_capacity must
+    run to completion, and both byte counters must equal the real ones at every hook that reports them."""
+    n = cfg.n
+    lines, origin = [f"reset {cfg.cap}"], [None]
+    win = {r: [] for r in range(n)}
+    for ev in hev:
+        k, r = ev.kind, ev.r
+        lab = None
+        if k in ("k:as+", "k:bc+", "k:hnr+", "k:fl+", "k:lp+"):
+            win[r].append(k[2:4])
+        elif k in ("k:as-", "k:bc-", "k:hnr-", "k:fl-", "k:lp-"):
+            if win[r]:
+                win[r].pop()
+            in_walk = "hn" in win[r]
+            if k == "k:hnr-":
+                lab = f"capend {r} {ev.f[0]} {ev.f[1]}"
+            elif k in ("k:as-", "k:bc-"):
+                lab = (f"check {r} {ev.f[1]} {ev.f[2]}" if in_walk else f"capend {r} {ev.f[1]} {ev.f[2]}")
+            elif k == "k:lp-":
+                lab = f"check {r} {ev.f[1]} {ev.f[2]}"
+        elif k == "k:pk":
+            lab = f"add {r} {ev.f[0]} {ev.f[1]}"
+        elif k == "k:qm":
+            lab = f"add {r} {ev.f[0]} {ev.f[1]}"
+        elif k == "k:fw":
+            lab = f"add {r} {ev.f[1]} {ev.f[2]}"
+        elif k == "k:sc":
+            lab = f"sendDone {r} {ev.f[0]}"
+        elif k == "k:fsb":
+            inner = win[r][-1] if win[r] else None
+            if inner in ("fl", "lp"):
+                lab = f"pointsend {r} {ev.f[0]} {ev.f[1]}"
+            else:
+                lab = f"capsend {r} {ev.f[0]} {ev.f[1]}"
+        if lab:
+            lines.append(lab)
+            origin.append(ev)
+    outs = C.model("bytes", lines)
+    local.count("bytes_labels", len(lines))
+    for line, o, ev in zip(lines, outs, origin):
+        if not o.startswith("ok"):
+            local.corr_failures.append({"relation": "buffering / flushing accepted by YgmVerif.Bytes (C07 acceptor)",
+                                        "what": f"label '{line}' -> {o} at {ev!r}",
+                                        "case": {"scenario": sc.to_json(), "config": cfg.to_json()}})
+            return
